@@ -100,6 +100,8 @@ def run(ck):
     ck.impl_flags = "-DWENCRY_VERIF -DWENCRY_VERIF_BUF_SZ=4 -DWENCRY_VERIF_HBUF_SZ=%d" % HBUF
     cases = gen_cases(ck)
     differential(ck, exe, cases, make_oracle(ck), src=True)
+    r = ck.rng
+    parallel_purity(ck, exe, ["hstr %d %s" % (i // 4 % 3, bytes(r.randrange(256) for _ in range(r.choice([3, 55, 56, 64, 100, 130]))).hex()) for i in range(24)], "digests (same algorithm, different messages)", iters=1500)
     # the 2^32-bit counter: one message of 2^29+3 zero bytes per algorithm through the file entry point
     # (implementation vs hashlib; the model side is covered by theorem C07_counter_is_64_bit)
     for alg, path, n, ref in (big_message_cases(ck, exe) if (ck.tier == "thorough" or not ck.proof_ok) else []):
